@@ -207,9 +207,9 @@ func (ie *ImageExtractor) processPicture(picture *html.Node) {
 		}
 	}
 
-	// The same goes for stray text directly inside the picture.
+	// The same goes for stray text and comments directly inside the picture.
 	for _, node := range dom.ChildNodes(picture) {
-		if node.Type == html.TextNode {
+		if node.Type != html.ElementNode {
 			picture.RemoveChild(node)
 		}
 	}
